@@ -11,13 +11,19 @@ _poll` of a connection pair.  Under harness/detsched.py these are replaced by:
                notify():  if waiters: waiters -= 1; ns.release()
            TRUSTED: that this is an adequate model of threading.Condition for one waiter
            (the feeder) and notify() callers holding the lock.
-  TThread  start() hands `target(*args)` to the scheduler as the process's feeder logical thread
+  TThread  start() hands `target(*args)` to the scheduler as the feeder logical thread of the CALLING main
+           thread (slot caller + 1): several main threads of one process share one queue object, and each
+           _start_thread they run starts its own feeder thread
+  SDeque   collections.deque whose clear() -- called only by Queue._start_thread -- is a yield point: a main
+           thread that has decided to start the feeder parks there, so whatever the code lets happen between
+           the test `self._thread is None` and the start can be scheduled
   pipe     send_bytes / recv_bytes / poll are yield points on the scheduler's message list
   clock    billiard.queues.monotonic() returns an opaque reading; `reading + timeout` is a deadline and
            `deadline - reading` (the remaining time of a timed get) is a yield point at which the
            scheduler decides whether the deadline has passed (-1.0) or not (the whole timeout)
   Unpicklable  an int whose pickling raises: what Queue.put accepts and the feeder cannot serialise
 """
+import collections
 import pickle
 
 import detsched
@@ -92,6 +98,21 @@ class TThread:
 
     def is_alive(self):
         return True
+
+
+class SDeque(collections.deque):
+    """the feeder buffer: clear() is the yield point of Queue._start_thread (event (t, 102, 7, #items dropped))"""
+    def clear(self):
+        def perform():
+            n = len(self)
+            collections.deque.clear(self)
+            return n
+        detsched.Scheduler.current.start_op(perform)
+
+
+class FakeCollectionsModule:
+    """what billiard.queues references as `collections`"""
+    deque = SDeque
 
 
 class FakeThreadingModule:
@@ -170,6 +191,7 @@ def install():
     if getattr(bq, '_detsched_fake', False):
         return
     bq.threading = FakeThreadingModule
+    bq.collections = FakeCollectionsModule
     bq.Finalize = NoFinalize
     bq.register_after_fork = lambda *a, **k: None
     bq.debug = lambda *a, **k: None
